@@ -359,6 +359,97 @@ theorem fnPred_sim (p : Val → Bool) (args : List Arg) (he : ∀ a ∈ args, Si
 
 variable (ev1 ev2 : Arg → Val → M Val)
 
+
+/-! ### text, conversion and list functions -/
+
+theorem wantLoop_sim : ∀ (args : List Arg) (ws : List Want) (acc : List Tree), (∀ a ∈ args, Sim (e1 a) (e2 a)) →
+    Sim (wantLoop e1 args ws acc) (wantLoop e2 args ws acc)
+  | [], _, _, _ => by simp only [wantLoop]; sim
+  | _ :: _, [], _, _ => by simp only [wantLoop]; sim
+  | a :: r, w :: ws, acc, he => by
+    have h1 := he a (List.mem_cons_self ..)
+    have ih := fun acc' => wantLoop_sim r ws acc' (mem_tail2 he)
+    simp only [wantLoop]
+    sim
+    all_goals exact ih _
+
+theorem fnScalar_sim (g : ScalarFn) (args : List Arg) (he : ∀ a ∈ args, Sim (e1 a) (e2 a)) :
+    Sim (fnScalar g e1 args) (fnScalar g e2 args) := by
+  have hw := wantLoop_sim e1 e2 _ (g.wants args.length) [] (swapArgs_mem (b := g.swap) he)
+  unfold fnScalar
+  sim
+
+theorem fnReverse_sim (args : List Arg) (he : ∀ a ∈ args, Sim (e1 a) (e2 a)) : Sim (fnReverse e1 args) (fnReverse e2 args) := by
+  match args with
+  | [] => simp only [fnReverse]; sim
+  | [a] =>
+    have h1 := he a (by simp)
+    simp only [fnReverse]
+    sim
+  | _ :: _ :: _ => simp only [fnReverse]; sim
+
+theorem fnAppend_sim (args : List Arg) (he : ∀ a ∈ args, Sim (e1 a) (e2 a)) : Sim (fnAppend e1 args) (fnAppend e2 args) := by
+  match args with
+  | [] => simp only [fnAppend]; sim
+  | [_] => simp only [fnAppend]; sim
+  | [a, b] =>
+    have h1 := he a (by simp)
+    have h2 := he b (by simp)
+    simp only [fnAppend]
+    sim
+  | _ :: _ :: _ :: _ => simp only [fnAppend]; sim
+
+theorem fnInclude_sim (args : List Arg) (he : ∀ a ∈ args, Sim (e1 a) (e2 a)) : Sim (fnInclude e1 args) (fnInclude e2 args) := by
+  match args with
+  | [] => simp only [fnInclude]; sim
+  | [_] => simp only [fnInclude]; sim
+  | [a, b] =>
+    have h1 := he a (by simp)
+    have h2 := he b (by simp)
+    simp only [fnInclude]
+    sim
+  | _ :: _ :: _ :: _ => simp only [fnInclude]; sim
+
+theorem sortKeys_sim (dev : Dev) (o : MapOrd) (h : Heap) (fs : List Frag) :
+    ∀ (xs : List Val), sortKeys ⟨dev, none⟩ h fs xs ≠ .error .enum →
+      sortKeys ⟨dev, some o⟩ h fs xs = sortKeys ⟨dev, none⟩ h fs xs
+  | [], _ => by simp [sortKeys]
+  | x :: r, hne => by
+    simp only [sortKeys] at hne ⊢
+    have hp : pathFirst ⟨dev, none⟩ h x fs ≠ .error .enum := by
+      intro hc; rw [hc] at hne; exact hne rfl
+    rw [pathFirst_sim dev o h fs x hp]
+    cases hpf : pathFirst ⟨dev, none⟩ h x fs with
+    | error e => rfl
+    | ok k =>
+      rw [hpf] at hne
+      simp only at hne ⊢
+      rw [sortKeys_sim dev o h fs r (by intro hc; rw [hc] at hne; exact hne rfl)]
+
+theorem sortList_sim (dev : Dev) (o : MapOrd) (h : Heap) (fs : List Frag) (xs : List Val)
+    (hne : sortList ⟨dev, none⟩ h fs xs ≠ .error .enum) :
+    sortList ⟨dev, some o⟩ h fs xs = sortList ⟨dev, none⟩ h fs xs := by
+  unfold sortList at hne ⊢
+  split
+  · rfl
+  · rename_i hlen
+    simp only [hlen, if_false] at hne
+    rw [sortKeys_sim dev o h fs xs (by intro hc; rw [hc] at hne; exact hne rfl)]
+
+theorem fnSort_sim (dev : Dev) (o : MapOrd) (args : List Arg) (he : ∀ a ∈ args, Sim (e1 a) (e2 a)) :
+    Sim (fnSort ⟨dev, none⟩ e1 args) (fnSort ⟨dev, some o⟩ e2 args) := by
+  match args with
+  | [] => simp only [fnSort]; sim
+  | [_] => simp only [fnSort]; sim
+  | [a, b] =>
+    have h1 := he a (by simp)
+    have hl : ∀ h fs xs, Sim (liftE (sortList ⟨dev, none⟩ h fs xs)) (liftE (sortList ⟨dev, some o⟩ h fs xs)) :=
+      fun h fs xs => Sim.liftE (sortList_sim dev o h fs xs)
+    simp only [fnSort]
+    sim
+    all_goals exact hl _ _ _
+  | _ :: _ :: _ :: _ => simp only [fnSort]; sim
+
 theorem eachLoop_sim (fn : Arg) (key : Bytes) (a : Nat) (hfn : ∀ at_, Sim (ev1 fn at_) (ev2 fn at_)) :
     ∀ (n i : Nat) (acc : List Val), Sim (eachLoop ev1 fn key a n i acc) (eachLoop ev2 fn key a n i acc)
   | 0, i, acc => by simp only [eachLoop]; sim
@@ -454,6 +545,11 @@ theorem evalFn_sim (dev : Dev) (o : MapOrd) (root at_ : Val) (f : Bytes) (args :
     case nth => exact fnNth_sim _ _ _ he
     case size => exact fnSize_sim _ _ _ he
     case pred p => exact fnPred_sim _ _ _ _ he
+    case scalar g => exact fnScalar_sim _ _ _ _ he
+    case reverse => exact fnReverse_sim _ _ _ he
+    case append => exact fnAppend_sim _ _ _ he
+    case incl => exact fnInclude_sim _ _ _ he
+    case sort => exact fnSort_sim _ _ _ _ _ he
 
 theorem eval_sim (dev : Dev) (o : MapOrd) (root : Val) :
     ∀ (n : Nat) (a : Arg) (at_ : Val), Sim (eval ⟨dev, none⟩ root n a at_) (eval ⟨dev, some o⟩ root n a at_)
